@@ -300,6 +300,14 @@ fn contains_cycle(type_id: usize, program: &Program, seen: &mut Vec<usize>) -> b
             None => return false,
         },
         Some(Type::Partial { fields, .. }) => fields.iter().map(|(_, t)| *t).collect(),
+        // A back-reference can also sit inside a function or process type
+        // (`Ok['int] | @(^ / 'int)`).
+        Some(Type::Callable {
+            parameter,
+            result,
+            receive,
+        }) => vec![*parameter, *result, *receive],
+        Some(Type::Process { send, receive }) => send.iter().chain(receive.iter()).copied().collect(),
         _ => return false,
     };
     children
